@@ -66,6 +66,7 @@ var (
 	dead     bool
 
 	steps    int64
+	stepBase int64 // steps at the last Progress() call: the cap is per operation
 	switches int64
 	preempts int64 // switches at library yield sites (not at seams/pauses)
 	stepCap  int64 = 3000000
@@ -161,6 +162,7 @@ func Reset(seed uint64, explicitTape []uint64) {
 	seq = 0
 	dead = false
 	steps = 0
+	stepBase = 0
 	switches = 0
 	preempts = 0
 	noPreempt = false
@@ -283,9 +285,26 @@ func TaskExit(id int) {
 	clearIdleAll()
 	next := pickAny(id)
 	if next < 0 {
-		active = false
-		current = -1
-		return
+		// nobody is eligible: either everybody is done, or the remaining
+		// tasks wait for something that can no longer happen (deadlock):
+		// release them so that they unwind (PauseOn returns false)
+		for i := 0; i < ntasks; i++ {
+			if state[i] == tRunnable {
+				dead = true
+				break
+			}
+		}
+		if dead {
+			for i := 0; i < ntasks; i++ {
+				idle[i] = false
+			}
+			next = pickAny(id)
+		}
+		if next < 0 {
+			active = false
+			current = -1
+			return
+		}
 	}
 	switches++
 	current = next
@@ -423,7 +442,7 @@ func Yield(site int) {
 	if site >= 0 && site < MaxSites {
 		siteHit[site]++
 	}
-	if steps > stepCap {
+	if steps-stepBase > stepCap {
 		panic(StepCapPanic{Site: site})
 	}
 	prev := lastSite[me]
@@ -489,7 +508,7 @@ func Seam(code int) {
 	}
 	me := current
 	steps++
-	if steps > stepCap {
+	if steps-stepBase > stepCap {
 		panic(StepCapPanic{Site: -code})
 	}
 	clearIdleAll()
@@ -532,7 +551,7 @@ func PauseOn(key int32, deadline int64) bool {
 	}
 	me := current
 	steps++
-	if steps > stepCap {
+	if steps-stepBase > stepCap {
 		panic(StepCapPanic{Site: -1})
 	}
 	idle[me] = true
@@ -587,6 +606,12 @@ func Sleep(d int64) bool {
 	}
 	return true
 }
+
+// Progress tells the scheduler that the calling world finished one
+// operation: the step cap (non-termination detector) counts from here.
+//
+//go:norace
+func Progress() { stepBase = steps }
 
 // Tick returns the next global event sequence number (total order over all
 // tasks of a run; used to stamp invoke/return events of recorded histories).
